@@ -32,7 +32,7 @@ CONSTANTS Mode,
           \* --- queue mode ---
           Capacities,     \* values of io_parallelism of the store (= initial iops_avail) to explore
           Budgets,        \* values of SchedulerConfig.io_buffer_size_bytes to explore
-          ReqCodes,       \* set of integers id*10000 + prio*1000 + s1*100 + s2*10 + s3 (sizes 1..9, 0 = absent)
+          ReqCodes,       \* set of integers id*10000 + prio*1000 + s1*100 + s2*10 + s3 (size digits: 0 = absent, 1..8 = bytes, 9 = a zero-length range)
           AllowClose,     \* may the scheduler be dropped
           AllowAbandon,   \* may a consumer drop a request future (environment outside the property)
           OrderedSubmit,  \* requests are submitted in id order (scenario generation)
@@ -55,7 +55,8 @@ Sizes(r) == LET c == CodeOf(r)
                 a == (c \div 100) % 10
                 b == (c \div 10) % 10
                 d == c % 10
-            IN IF b = 0 THEN <<a>> ELSE IF d = 0 THEN <<a, b>> ELSE <<a, b, d>>
+                z(x) == IF x = 9 THEN 0 ELSE x      \* digit 9 encodes an iop of 0 bytes
+            IN IF b = 0 THEN <<z(a)>> ELSE IF d = 0 THEN <<z(a), z(b)>> ELSE <<z(a), z(b), z(d)>>
 NIops(r) == Len(Sizes(r))
 Iops == {i \in ReqIds \X (1..3) : i[2] <= NIops(i[1])}
 Size(i) == Sizes(i[1])[i[2]]
@@ -178,8 +179,26 @@ DoClose    == Mode = "queue" /\ UNCHANGED <<case, cap, bud>> /\ (Close)
 DoAbandon  == Mode = "queue" /\ UNCHANGED <<case, cap, bud>> /\ (\E r \in ReqIds : Abandon(r))
 DoTerminated == Mode = "queue" /\ UNCHANGED <<case, cap, bud>> /\ (Terminated)
 External == DoSubmit \/ DoComplete \/ DoConsume \/ DoClose \/ DoAbandon
-\* the implementation pops as soon as it can: used to generate schedules
-EagerNext == IF \E i \in Iops : PopGuard(i) THEN DoPop ELSE External
+\* An iop of zero bytes (a zero-length range) is an IoTask like any other: it waits in the heap, takes
+\* an iops slot and its priority enters priorities_in_flight until the request is consumed; but
+\* IoTask::run answers it at once without calling the object store.  For an outside observer its
+\* Pop and its Complete are therefore invisible.
+SilentGuard(i) == Size(i) = 0 /\ PopGuard(i)
+\* Pop(i) followed at once by Complete(i), as one step (used by Trace_IoSched)
+SilentEffect(i) ==
+  /\ istate' = [istate EXCEPT ![i] = "done"]
+  /\ prios' = [prios EXCEPT ![Prio(i[1])] = @ + 1]
+  /\ bypass' = IF 0 > bytesAvail THEN bypass \cup {i} ELSE bypass
+  /\ rstate' = IF rstate[i[1]] = "waiting" /\ AllTerminalExcept(istate, i[1], i)
+               THEN [rstate EXCEPT ![i[1]] = "ready"] ELSE rstate
+  /\ UNCHANGED <<flight, iopsAvail, bytesAvail, closed>>
+DoSilentComplete == Mode = "queue" /\ UNCHANGED <<case, cap, bud, hist>> /\
+                    (\E i \in Iops : Size(i) = 0 /\ CompleteGuard(i) /\ CompleteEffect(i))
+\* the implementation pops as soon as it can and answers zero-byte iops by itself: used to generate
+\* schedules (only the environment's steps are logged)
+EagerNext == IF \E i \in Iops : PopGuard(i) THEN DoPop
+             ELSE IF \E i \in Iops : Size(i) = 0 /\ CompleteGuard(i) THEN DoSilentComplete
+             ELSE External
 
 (***************************************************************************)
 (* ops mode: the universe of cases                                          *)
